@@ -208,6 +208,20 @@ func (s *Sched) YieldCurrent(label string) bool {
 	return true
 }
 
+// YieldBlockedCurrent is YieldBlocked with YieldCurrent's notion of who is calling.
+func (s *Sched) YieldBlockedCurrent(label string) bool {
+	s.mu.Lock()
+	t := s.cur
+	if t == nil || t.Quiet || t.parked || t.finished {
+		s.mu.Unlock()
+		return false
+	}
+	t.parked, t.blocked, t.label = true, true, label
+	s.mu.Unlock()
+	<-t.run
+	return true
+}
+
 // YieldBlocked is YieldHere for the retry loop of a blocking request that cannot be granted now (a
 // flock somebody else holds): the task is parked and is not released again until another task has
 // been released or simulated time has passed since its last release.
